@@ -281,7 +281,7 @@ pub fn run_component(comp: &Component, sched: &SchedSpec, replay: Option<Trace>,
     ComponentOutput { findings, harness, stats, trace: record_trace.then_some(r.sched.trace), summary }
 }
 
-fn case_record(check: &str, tier: Tier, seed: u64, idx: u64) -> CaseRecord {
+pub fn case_record(check: &str, tier: Tier, seed: u64, idx: u64) -> CaseRecord {
     let (comp, sched) = plan(check, seed, idx, tier);
     let out = run_component(&comp, &sched, None, false);
     let sample = (idx < 3).then(|| json!({"component": comp.to_json(), "strategy": sched.strategy, "strict": sched.strict, "decisions": out.stats.decisions, "result": out.summary}));
